@@ -9,7 +9,7 @@ RULE = ("per seed a pool of shapes built to contain every pattern (nested, hole-
         "component-wise, crossing, disjoint, L-shapes with squares in the notch, Empty, Whole); all ordered pairs in "
         "general position (or nested without contact), unbounded Connected and Disjoint containers with bounded contents, curved contents whose control polygon leaves the container while the curve stays inside (parabola cap in a rectangle, few-arc circle in a tight square; closed-form truth), plus simple shapes whose boundaries touch without crossing (shared vertex, vertex on an edge, shared part of an edge; bounded/unbounded): `B in A`, A.contains_shape(B), the corollaries A in A, "
         "B in A => A|B == A and A&B == B; contains_jordan with both flags for curves against shapes; exact subset "
-        "oracle by slab sampling; non-trivial = bounding boxes overlap and neither is Empty/Whole; distinct = SHA-1")
+        "oracle by slab sampling; every pair with answer True and a third of the others asked again after a history (one operand built displaced / scaled / point-reflected, asked there, brought into place by in-place move / scale); non-trivial = bounding boxes overlap and neither is Empty/Whole; distinct = SHA-1")
 PROOF_STATUS = ("Props/C03.v: Empty/Whole rows, composition rules for Connected/Disjoint containers and contents; curve-in-shape "
                 "(the heart of `B in A`) is SOUND and COMPLETE for polygons: in general position `J in A` holds iff every point of "
                 "J is inside or on A (C03_curve_in_shape_iff), lifted to all container kinds; the area/orientation case analysis of "
@@ -135,9 +135,18 @@ def cases(ctx):
         forced2 = [(a, b) for a in pool for b in pool if a[0] == "D" and b[0] == "S" and O.moment_shape(b, 0, 0) > 0
                    and any(O.moment_shape(c, 0, 0) < 0 for c in a[1])]
         rng.shuffle(forced2)
-        for a, b in forced[:8] + forced2[:10] + pairs[: ctx.n(60, 400)]:
+        # bounded contents nested in bounded containers (the small diamonds placed inside pool members)
+        forced3 = [(a, b) for a in pool for b in pool if a is not b and a[0] not in "EW" and b[0] == "S"
+                   and 0 < O.moment_shape(b, 0, 0) < F(1, 100) and O.moment_shape(a, 0, 0) > 0
+                   and O.region(a, b[1][0][0]) == "in"]
+        for n, (a, b) in enumerate(forced[:8] + forced2[:10] + forced3[:6] + pairs[: ctx.n(60, 400)]):
             if a is b or _compatible(a, b):
-                yield {"a": a, "b": b, "same": a is b}
+                case = {"a": a, "b": b, "same": a is b}
+                if a is not b and a[0] not in "EW" and b[0] not in "EW":
+                    # the same question after a history: one operand is built elsewhere (displaced, at another size,
+                    # or point-reflected), asked there, then brought into place by the library's in-place move / scale
+                    case["hist"] = ["moveB", "moveA", "scaleB", "reflectA", "scaleA", "reflectB"][n % 6]
+                yield case
         for s in pool[2:8]:
             for t in pool[2:10]:
                 for j in O.shape_jordans(t)[:1]:
@@ -196,6 +205,25 @@ def _curved_content(ctx, case):
         if r != ("ok", truth):
             fails.append(Fail(kind="O", what="%s is not the subset relation for a curved content (closed form)" % name, impl=r, expected=truth))
     return fails
+
+
+def _hist(a, b, how):
+    """A and B as library objects, one of them built somewhere else, asked there (`in` both ways, box), and brought
+    into place by the library's own in-place move / scale; exact on Fractions"""
+    d, c = (F(37), F(-29)), F(4)
+    maps = {"move": (lambda p: (p[0] + d[0], p[1] + d[1]), lambda X: X.move((-d[0], -d[1]))),
+            "scale": (lambda p: (p[0] * c, p[1] * c), lambda X: X.scale(1 / c, 1 / c)),
+            "reflect": (lambda p: (-p[0], -p[1]), lambda X: X.scale(-1, -1))}
+    fwd, back = maps[how[:-1]]
+    if how.endswith("A"):
+        A, B = I.mk_shape(U.map_shape(a, fwd)), I.mk_shape(b)
+        X = A
+    else:
+        A, B = I.mk_shape(a), I.mk_shape(U.map_shape(b, fwd))
+        X = B
+    I.outcome(lambda: (bool(B in A), bool(A in B), X.box() if hasattr(X, "box") else None))
+    back(X)
+    return A, B
 
 
 def check(ctx, case):
@@ -276,6 +304,14 @@ def check(ctx, case):
             fails.append(Fail(kind="O", what="B in A but A|B is not A", impl=ru))
         if rn[0] != "ok" or not U.shape_same(rn[1], I.shape_data(I.mk_shape(b))):
             fails.append(Fail(kind="O", what="B in A but A&B is not B", impl=rn))
+    if case.get("hist") and (truth or case["hist"] in ("moveB", "reflectA")):
+        # the same question on objects with a history (every pair where the answer is True, a third of the others)
+        ctx.count("history:" + case["hist"])
+        Ah, Bh = _hist(a, b, case["hist"])
+        rh = I.outcome(lambda: bool(Bh in Ah))
+        if rh != ("ok", truth):
+            fails.append(Fail(kind="O", what="`B in A` is not the subset relation after a history (%s: built elsewhere, asked there, "
+                              "brought into place by an in-place move / scale)" % case["hist"], impl=rh, expected=truth))
     if case.get("same") and ri != ("ok", True):
         fails.append(Fail(kind="O", what="A in A is not True", impl=ri))
     return fails
